@@ -42,6 +42,10 @@ impl<const LIMBS: usize> Int<LIMBS> {
     /// Create a [`Int`] from an `i128` (const-friendly)
     // TODO(tarcieri): replace with `const impl From<i128>` when stable
     pub const fn from_i128(n: i128) -> Self {
+        assert!(
+            LIMBS >= 16 / Limb::BYTES,
+            "number of limbs must be two or greater"
+        );
         Uint::<{ I128::LIMBS }>::from_u128(n as u128)
             .as_int()
             .resize()
